@@ -1,5 +1,6 @@
 (* Properties_C02.v — the decoder accepts every conformant encoding and recovers the exact message. *)
-From QV Require Import Base Fields SrcFacts Msg Decoder WireSpec DecoderSafety DecoderComplete.
+From QV Require Import Base Fields SrcFacts Msg Decoder WireSpec DecoderSafety DecoderComplete WireMsg DecoderMsg.
+From Coq Require Import Lia.
 Local Open Scope N_scope.
 
 (* Name level (the part of the property that carries the compression rules): for EVERY placement of
@@ -7,10 +8,7 @@ Local Open Scope N_scope.
    name or inside rdata, where the remaining labels are encoded, with chains of any length - and any byte
    content of the labels, parseName returns exactly the dotted name and leaves the cursor just after the
    name's in-place encoding (after the zero byte or after the first pointer).
-   PARTIAL with respect to the full statement "Encodes p m -> from_packet p = Ok m": the record and message
-   layers (fixed-width fields, rdata by type, unsupported types skipped by rdlength, count summation) are
-   tied by the reference-encoder correspondence run of this check; their relational spec is still to be
-   stated in WireSpec.v. *)
+   The record and message layers follow below (C02_decoder_complete). *)
 Theorem C02_name_complete_partial mem len off ls e acc fuel :
   len <= 65535 -> (N.to_nat len < fuel)%nat ->
   NameAt mem len off off ls e -> parse_name mem len fuel off acc = Ok (name_of acc ls, e).
@@ -23,3 +21,56 @@ Example C02_example :
   let p := [1; 97; 1; 98; 0;  1; 99; 192; 2;  192; 5]%N in
   decode_name p 9 = Ok (Some [99; 46; 98; 46]%N, 11) /\ decode_name p 5 = Ok (Some [99; 46; 98; 46]%N, 9).
 Proof. vm_compute. auto. Qed.
+
+(* ---- message level: the full statement ----
+   [MessageAt mem len m] (WireMsg.v) is the RFC 1035 / 6762 wire format as a relation, written without reference to
+   decoder or encoder: the 12-byte header with its four counts (answer, authority and additional counts distributed
+   in any way), questions, then records; every name is a [NameAt] (labels, then a zero byte or a pointer to ANY earlier
+   offset at which the remaining labels are encoded - in an owner name or inside earlier rdata - with chains of any
+   length and any byte content); records of the six supported types with their rdata layout and a consistent rdlength;
+   TXT rdata as ANY sequence of character strings filling rdlength exactly (empty strings included); records of ANY
+   other type with arbitrary rdata of the declared length.  The message m it determines has sender address and port
+   cleared, and for an unsupported type only name, type, cache-flush bit and TTL.
+   The decoder succeeds on every such packet and returns exactly m. *)
+Theorem C02_decoder_complete p m :
+  lenN p <= 65535 -> MessageAt (mem_of p) (lenN p) m -> decode p = Ok m.
+Proof.
+  intros L M. unfold decode. apply (message_complete (mem_of p) (lenN p) L (fuel_for p)); [|exact M].
+  unfold fuel_for, lenN. lia.
+Qed.
+Print Assumptions C02_decoder_complete.
+
+(* one record: whatever its type.  For a type the library does not support the rdata is skipped by its declared
+   length and the cursor ends exactly behind it, so the records that follow are not disturbed (RecordsAt chains e) *)
+Theorem C02_record_complete mem len fuel off r e :
+  len <= 65535 -> (N.to_nat len < fuel)%nat -> RecordAt mem len off r e ->
+  parse_record mem len fuel off default_record = Ok (r, e).
+Proof. intros L F H. exact (record_complete mem len L fuel F off r e H). Qed.
+Print Assumptions C02_record_complete.
+
+(* non-vacuity for the unsupported-type clause: name "a." + type 99, class IN with the cache-flush bit, TTL 5,
+   rdlength 2, two bytes of rdata; followed by an A record whose owner name is a pointer to offset 0 *)
+Example C02_unsupported_example :
+  let p := [1; 97; 0;  0; 99;  128; 1;  0; 0; 0; 5;  0; 2;  7; 8;   192; 0;  0; 1;  0; 1;  0; 0; 0; 9;  0; 4;  10; 0; 0; 1]%N in
+  RecordAt (mem_of p) (lenN p) 0 (base_record (Some [97; 46]) 99 32769 5) 15 /\
+  decode_record p 0 = Ok (set_ttl 5 (set_flush true (set_type 99 (set_name (Some [97; 46]) default_record))), 15) /\
+  decode_record p 15 = Ok (set_addr (A4 167772161) (set_ttl 9 (set_type 1 (set_name (Some [97; 46]) default_record))), 31).
+Proof.
+  cbv zeta. split; [|split; vm_compute; reflexivity].
+  assert (B : forall off l, (forall i, (i < length l)%nat ->
+     nth (N.to_nat (off + N.of_nat i)) [1; 97; 0; 0; 99; 128; 1; 0; 0; 0; 5; 0; 2; 7; 8; 192; 0; 0; 1; 0; 1; 0; 0; 0; 9; 0; 4; 10; 0; 0; 1] 0 = nth i l 0) ->
+     bytes_at (mem_of [1; 97; 0; 0; 99; 128; 1; 0; 0; 0; 5; 0; 2; 7; 8; 192; 0; 0; 1; 0; 1; 0; 0; 0; 9; 0; 4; 10; 0; 0; 1]) off l).
+  { intros off l H i Hi. apply H, Hi. }
+  change 15 with (3 + 10 + 2).
+  eapply RA with (ls := [[97]]) (o1 := 3) (type := 99) (cls := 32769) (ttl := 5) (dlen := 2); try (vm_compute; reflexivity).
+  - apply NA_label.
+    + discriminate.
+    + vm_compute. discriminate.
+    + vm_compute. discriminate.
+    + vm_compute. reflexivity.
+    + apply B. intros i Hi. cbn in Hi. destruct i as [|i]; [reflexivity|lia].
+    + apply NA_end; vm_compute; reflexivity.
+  - split; [vm_compute; discriminate|]. apply B. intros i Hi. cbn in Hi.
+    do 10 (destruct i as [|i]; [reflexivity|]). lia.
+  - apply RD_other; try (cbn; discriminate); vm_compute; discriminate.
+Qed.
